@@ -43,6 +43,10 @@ def _datas(tier, seed):
             out.append(("G%dx%d" % shp, (np.array(X) + 0.75).tolist()))
     # the same features at a tiny scale (kernel entries ~1e-12): an absolute cut-off in the code shows here
     out.append(("G5x2-tiny", ((np.array(fam.generic_list(5, 2, seed, 1)[0]) + 0.75) * 1e-6).tolist()))
+    out.append(("G5x2-tiny9", ((np.array(fam.generic_list(5, 2, seed, 1)[0]) + 0.75) * 1e-9).tolist()))
+    # integer-valued features: the kernels are integer matrices and may be handed over with an integer dtype
+    rng = np.random.default_rng([seed, 1212])
+    out.append(("I5x3-int", rng.integers(-3, 4, size=(5, 3)).astype(float).tolist()))
     return out
 
 
@@ -80,13 +84,18 @@ def cases(group):
     n = len(X)
     for w in _weights(n):
         for (wc, wt) in FLAGS:
+            intk = group["label"].endswith("-int")
             if group["kind"] == "dense":
+                if intk:
+                    yield dict(kind="dense", X=X, w=w, with_center=wc, with_trace=wt, int_dtype=True)
                 yield dict(kind="dense", X=X, w=w, with_center=wc, with_trace=wt)
                 yield dict(kind="dense", X=X, w=w, with_center=wc, with_trace=wt, used=True)
             else:
                 for size in (1, 2, 3):
                     for act in itertools.combinations(range(n), size):
                         yield dict(kind="sparse", X=X, w=w, with_center=wc, with_trace=wt, active=list(act))
+                        if intk:
+                            yield dict(kind="sparse", X=X, w=w, with_center=wc, with_trace=wt, active=list(act), int_dtype=True)
                         if size == 2 and act[0] == 0:
                             yield dict(kind="sparse", X=X, w=w, with_center=wc, with_trace=wt, active=list(act), used=True)
 
@@ -121,8 +130,9 @@ def check(case):
             if case.get("used"):
                 Po = Phi[::-1] * 0.5 + 0.25
                 kn.fit(Po @ Po.T, sample_weight=None if sw is not None else np.arange(1.0, n + 1.0))
-            kn.fit(K.copy(), sample_weight=sw)
-            Kt = np.asarray(kn.transform(K.copy()), float)
+            Kin = K.astype(np.int64) if case.get("int_dtype") else K
+            kn.fit(Kin.copy(), sample_weight=sw)
+            Kt = np.asarray(kn.transform(Kin.copy()), float)
         except Exception as e:
             return r.fail("crash:%s" % type(e).__name__, repr(e))
         r.states += 1
@@ -146,7 +156,7 @@ def check(case):
                 r.fail("test-kernel-crash:%s" % type(e).__name__, "%d test rows: %r" % (v, e))
                 continue
             r.states += 1
-            if got.shape != want.shape or np.abs(got - want).max() > tol:
+            if got.shape != want.shape or np.abs(got - want).max() > max(tol, 1e-9 * float(np.abs(want).max())):
                 r.fail("test-kernel-not-feature-space-centred", "%d test rows: max diff %.3g" % (v, np.abs(got - want).max() if got.shape == want.shape else -1))
                 break
         r.nontrivial = w is not None and len(set(w)) > 1
@@ -168,8 +178,9 @@ def check(case):
         if case.get("used"):
             Po = Phi[::-1] * 0.5 + 0.25
             sc.fit(Po @ Po[act].T, Po[act] @ Po[act].T, sample_weight=None if sw is not None else np.arange(1.0, n + 1.0))
-        sc.fit(Knm.copy(), Kmm.copy(), sample_weight=sw)
-        Kt = np.asarray(sc.transform(Knm.copy()), float)
+        Knm_in, Kmm_in = (Knm.astype(np.int64), Kmm.astype(np.int64)) if case.get("int_dtype") else (Knm, Kmm)
+        sc.fit(Knm_in.copy(), Kmm_in.copy(), sample_weight=sw)
+        Kt = np.asarray(sc.transform(Knm_in.copy()), float)
     except Exception as e:
         return r.fail("crash:%s" % type(e).__name__, repr(e))
     r.states += 1
